@@ -25,12 +25,12 @@ K = 10000
 BASE = dict(ActStrict=True, ShiftByMin=True, LatentCPs=set(), DoEmit=True, Shard=0, NShards=1)
 DEEP_SHARDS = 64          # deep3 has about a million inputs (each exported with ~10 descriptions): one shard of 64 by VERIF_SEED
 CFG = {
-    "quick2": dict(Temps={0, 100, 200}, CPs={1, 2}, DTCs={0, 50}, MaxStreams=2, NZones=2, Ladders={0, 1, 2, 3, 4, 6, 7, 8, 9}),
+    "quick2": dict(Temps={0, 100, 200}, CPs={1, 2}, DTCs={0, 50}, MaxStreams=2, NZones=2, Ladders={0, 1, 2, 3, 4, 6, 7, 8, 9, 10}),
     "quick3": dict(Temps={0, 100, 200}, CPs={1, 2}, DTCs={0, 50}, MaxStreams=3, NZones=2, Ladders={0, 1, 2, 4, 9}),
     "near": dict(Temps={120, 130, 140}, CPs={1, 2}, DTCs={0}, MaxStreams=2, NZones=2, Ladders={5}),
     # isothermal (latent) streams: 1-unit wide in the specification, passed with supply == target where the code's own rule applies
     "latent": dict(Temps={0, 100, 200}, CPs={1}, DTCs={0, 50}, LatentCPs={150}, MaxStreams=2, NZones=2, Ladders={0, 2}),
-    "deep3": dict(Temps={0, 100, 200, 300}, CPs={1, 2}, DTCs={0, 50}, MaxStreams=3, NZones=3, Ladders={0, 1, 2, 3, 4, 6, 7, 8, 9}),
+    "deep3": dict(Temps={0, 100, 200, 300}, CPs={1, 2}, DTCs={0, 50}, MaxStreams=3, NZones=3, Ladders={0, 1, 2, 3, 4, 6, 7, 8, 9, 10}),
 }
 EMB_BASE = Emb("native", 100.0, 0.01, 1.0, True)
 EMB_SHIFT = Emb("native-101.5K", -1.5, 0.01, 1.0, True)   # lattice 150 (a ladder level / stream bound) maps to exactly 0.0
@@ -100,7 +100,7 @@ def request(S, z, ladder, emb: Emb, with_units=False, nest=False, twin=0):
                             heat_flow=num(emb.Q(s["cp"] * (hi - lo)), "kW"), dt_cont=num(emb.dT(s["dtc"]), "degC"), htc=num(1.0, "kW/m2K")))
     # a declared (installed) duty on the utility is legal input and must not influence targeting; inactive utilities must be ignored
     utils = [dict(name=u["name"], type=u["type"], t_supply=num(emb.T(u["ts"]), "degC"), t_target=num(emb.T(u["tt"]), "degC"),
-                  heat_flow=num(emb.Q(70.0), "kW"), dt_cont=num(0.0, "degC"), htc=num(1.0, "kW/m2K"), price=num(1.0, "$/MWh"),
+                  heat_flow=num(emb.Q(70.0), "kW"), dt_cont=num(emb.dT(u.get("dtc", 0)), "degC"), htc=num(1.0, "kW/m2K"), price=num(1.0, "$/MWh"),
                   active=bool(u.get("active", True))) for u in ladder]
     req = dict(streams=streams, utilities=utils, options={"DT_CONT": emb.dT(50), "DT_PHASE_CHANGE": emb.dT(10)})
     if nest in ("tree", "subsite", "community"):
@@ -355,7 +355,7 @@ def site_leg(run, tier, names, accept):
         run.add_tlc(res, "SiteGen/" + name)
         cases = res.cases
         if name == "quick2":
-            cases = sample(cases, 1350, 2)
+            cases = sample(cases, 1500, 2)
         if name == "quick3":
             cases = sample(cases, 300, 3)
         if name == "latent":
